@@ -743,68 +743,37 @@ theorem shift64_correct (s : Bool) (op : ShOp) (x : W64) (n : Nat) (hx : Canon s
         repeat' split
         all_goals first | exact hx | exact mk64_canon true _ _
 
-/-! ### `$div64`: what is proved, and what is not -/
+/-! ### `$div64` -/
 
-theorem toBV_eq_zero (s : Bool) (y : W64) (hy : Canon s y) : toBV y = 0 ↔ (y.high = 0 ∧ y.low = 0) := by
-  constructor
-  · intro h
-    have hv := valOf_toBV s y hy
-    rw [h] at hv
-    have h0 : valOf s (0 : BitVec 64) = 0 := by cases s <;> simp [valOf]
-    rw [h0] at hv
-    cases s <;> simp only [Canon, if_true, if_false, Bool.false_eq_true] at hy <;> unfold flatten64 at hv <;> omega
-  · intro h
-    simp only [toBV, flatten64, h.1, h.2]; rfl
-
-/-- `$div64` throws "integer divide by zero" exactly when the specification panics -/
-theorem div64_panic_iff (s : Bool) (x y : W64) (r : Bool) (hy : Canon s y) :
-    div64 s x y r = none ↔ specBin s (if r then .rem else .quo) (toBV x) (toBV y) = none := by
-  have hz := toBV_eq_zero s y hy
+/-- `div64_correct`: `$div64` (numeric.js:118-177) is Go's truncated division (`returnRemainder = false`) / remainder (`true`) on
+    `BitVec 64`, for ALL canonical operands of int64 (`s = true`) and uint64: it throws exactly when the divisor is zero,
+    `MinInt64 / -1` wraps, the remainder takes the sign of the dividend; the result is a canonical pair.
+    (Proof: `GV.Proofs.Div64` — the first loop terminates within the model's fuel and doubles |y| without overflow (`norm_spec`),
+    the second loop keeps `|x| = q * (|y| * 2^m) + r`, `r < |y| * 2^m` (`loop_spec`), so the registers end with |x| / |y| and
+    |x| % |y| (`magnitude_spec`); signs by `tdiv_abs`, `tmod_abs`.) -/
+theorem div64_correct (s : Bool) (x y : W64) (r : Bool) (hx : Canon s x) (hy : Canon s y) :
+    (div64 s x y r).map toBV = specBin s (if r then .rem else .quo) (toBV x) (toBV y) ∧
+    (∀ z, div64 s x y r = some z → Canon s z) := by
+  refine ⟨GV.Proofs.Div64.div64_correct s x y r hx hy, ?_⟩
+  intro z hzz
   by_cases h0 : y.high = 0 ∧ y.low = 0
-  · have hb : toBV y = 0 := hz.2 h0
-    cases r <;> simp [div64, h0, specBin, hb]
-  · have hb : ¬ toBV y = 0 := fun h => h0 (hz.1 h)
-    have hd : div64 s x y r ≠ none := by
-      unfold div64; rw [if_neg h0]; simp only []; split <;> simp
-    cases r <;> simp [hd, specBin] <;> exact hb
+  · simp [div64, h0] at hzz
+  · rw [GV.Proofs.Div64.div64_eq s x y r h0] at hzz
+    split at hzz <;> (cases hzz; exact mk64_canon s _ _)
 
-/-- every result of `$div64` is a canonical pair -/
-theorem div64_canon (s : Bool) (x y : W64) (r : Bool) (z : W64) (h : div64 s x y r = some z) : Canon s z := by
-  unfold div64 at h
-  split at h
-  · cases h
-  · simp only [] at h
-    split at h <;> (cases h; exact mk64_canon s _ _)
-
-/-- termination of the first loop of `$div64` (numeric.js:148-152): on the magnitude of any canonical non-zero divisor the
-    loop stops by itself — the model's 64 units of fuel are never used up. (The second loop runs exactly n+1 times by
-    construction.) -/
+/-- termination of the first loop of `$div64` (numeric.js:148-152): on the magnitude of any canonical non-zero divisor the loop
+    stops by itself — the model's 64 units of fuel are never used up (the second loop runs exactly n+1 times by construction) -/
 theorem div64_norm_terminates (s : Bool) (y : W64) (hy : Canon s y) (hy0 : ¬ (y.high = 0 ∧ y.low = 0)) (xh xl : Int) :
-    let yneg : Bool := decide (y.high < 0)
-    let yHigh0 := if yneg then -y.high else y.high
-    let yHigh := if yneg ∧ y.low ≠ 0 then yHigh0 - 1 else yHigh0
-    let yLow := if yneg ∧ y.low ≠ 0 then 4294967296 - y.low else y.low
-    0 < (div64Norm 64 xh xl yHigh yLow 0).2.2.2 := by
-  intro yneg yHigh0 yHigh yLow
-  have hl := hy.2
-  have hh : -2147483648 ≤ y.high ∧ y.high < 4294967296 := by
-    cases s <;> simp only [Canon, if_true, if_false, Bool.false_eq_true] at hy <;> omega
-  apply GV.Proofs.Div64.div64Norm_fuel 64 xh xl yHigh yLow 0 (by omega)
-  · simp only [yHigh, yHigh0, yneg, yLow, decide_eq_true_eq]; repeat' split
-    all_goals omega
-  · simp only [yLow, yneg, decide_eq_true_eq]; repeat' split
-    all_goals omega
-  · simp only [yHigh, yHigh0, yneg, yLow, decide_eq_true_eq, Nat.sub_self, Int.pow_zero]; repeat' split
-    all_goals omega
-
-/-- FULL-STRENGTH statement for the quotient/remainder values of `$div64` — NOT claimed, NOT proved. Proved above: the panic
-    condition (`div64_panic_iff`), canonical results (`div64_canon`), termination of the normalisation loop
-    (`div64_norm_terminates`, with the doubling step `GV.Proofs.Div64.norm_step`). Missing: the invariant of the second loop
-    (numeric.js:154-171): after i iterations `|x| = q_i * (2 * y_i) + x_i` with `x_i < 2 * y_i`, `y_i = |y| * 2^(n-i)`, and the
-    sign reconstruction `high * s`, `xHigh * rs`. The values are covered by the helper tie (all grid pairs incl. MIN / -1,
-    random and carry patterns; both signednesses; quotient and remainder) against this `BitVec` specification. -/
-def div64_correct_full : Prop :=
-  ∀ (s : Bool) (x y : W64) (r : Bool), Canon s x → Canon s y →
-    (div64 s x y r).map toBV = specBin s (if r then .rem else .quo) (toBV x) (toBV y)
+    0 < (div64Norm 64 xh xl (magnitude y.high y.low).1 (magnitude y.high y.low).2 0).2.2.2 := by
+  have hyl := hy.2
+  have hyh : -2147483648 ≤ y.high ∧ y.high < 4294967296 := by
+    have := hy.1; cases s <;> simp only [if_true, if_false, Bool.false_eq_true] at this <;> omega
+  obtain ⟨myc, myv⟩ := GV.Proofs.Div64.magnitude_spec' y.high y.low hyh hyl
+  apply GV.Proofs.Div64.div64Norm_fuel 64 xh xl _ _ 0 (by omega) myc.1 myc.2
+  have : GV.Proofs.Div64.val (magnitude y.high y.low).1 (magnitude y.high y.low).2 =
+      (magnitude y.high y.low).1 * 4294967296 + (magnitude y.high y.low).2 := rfl
+  rw [← this, myv]
+  simp only [Nat.sub_self, Int.pow_zero]
+  split <;> omega
 
 end GV.Props.C06
